@@ -70,8 +70,13 @@ uint64_t       nondet_u64 (void);
   unsigned char *ptr = malloc ((len) + (extra));                            \
   XV_ASSUME (ptr != NULL);                                                  \
   unsigned char inw_##name[XV_WIN];                                         \
+  XV_WINDOW (inw_##name, ptr, len)
+
+/* the only harness loop that needs XV_WIN unwindings lives in a macro with a
+   recognisable loop variable so jobs can give it its own bound */
+#define XV_WINDOW(dst, src, len)                                            \
   for (size_t xv_k = 0; xv_k < XV_WIN; xv_k++)                              \
-    inw_##name[xv_k] = (xv_k < (size_t)(len)) ? ptr[xv_k] : 0
+    dst[xv_k] = (xv_k < (size_t)(len)) ? (src)[xv_k] : 0
 
 /* Arbitrary-but-fixed index below n, for universally quantified
    obligations ("for every k < n: P(k)" is asserted as P(k) for nondet k). */
